@@ -227,7 +227,7 @@ def eject(file: str, mode: str, output_format: str):
     from octave_mcp.core.projector import project
     from octave_mcp.mcp.eject import _dump_yaml
 
-    with open(file) as f:
+    with open(file, encoding="utf-8") as f:
         content = f.read()
 
     try:
@@ -307,7 +307,7 @@ def validate(file: str | None, use_stdin: bool, schema: str | None, fix: bool, v
     if use_stdin:
         content = sys.stdin.read()
     elif file:
-        with open(file) as f:
+        with open(file, encoding="utf-8") as f:
             content = f.read()
     else:
         click.echo("Error: Must provide FILE or --stdin", err=True)
